@@ -115,6 +115,7 @@ def run(ctx: common.Run):
     check_resolver(ctx, cirq, sympy, n)
     check_circuits(ctx, cirq, sympy, max(20, n // 5))
     check_gate_families(ctx, cirq, sympy, 3 if ctx.tier == 'quick' else 25)
+    check_compose(ctx, cirq, sympy, n)
 
 
 def check_sweeps(ctx, cirq, n):
@@ -351,6 +352,62 @@ def check_circuits(ctx, cirq, sympy, n):
                 break
 
 
+def check_compose(ctx, cirq, sympy, n):
+    """resolve_parameters(r1, r2) on resolvers is the resolver of 'first r1, then r2' (C10_compose_resolvers)"""
+    rng = ctx.substream('compose')
+    names = ['a', 'b', 'c', 'd']
+
+    def rand_resolver():
+        rd, lr = {}, []
+        for nm in rng.sample(names, rng.randint(1, 3)):
+            if rng.random() < 0.5:
+                v = rng.choice([0.5, 0.25, 2.0, -3.0, 0.9])
+                rd[nm] = v
+                lr.append([nm, {'k': 'num', 'v': rat(v)}])
+            else:
+                e, le = rand_expr(rng, sympy, names, rng.choice([0, 0, 1]))
+                rd[nm] = e
+                lr.append([nm, le])
+        return rd, lr
+
+    reqs, meta = [], []
+    for _ in range(n):
+        d1, l1 = rand_resolver()
+        d2, l2 = rand_resolver()
+        reqs.append({'p': 'C10', 'op': 'compose', 'r1': l1, 'r2': l2})
+        meta.append((d1, d2))
+    for (d1, d2), out in zip(meta, ctx.driver.ask(reqs)):
+        r1, r2 = cirq.ParamResolver(d1), cirq.ParamResolver(d2)
+        comp = cirq.resolve_parameters(r1, r2, recursive=False)
+        shared = bool(set(d1) & set(d2))
+        ctx.case(['compose', repr(d1), repr(d2)], shared)
+        ctx.count('check', 'compose:shared-key' if shared else 'compose')
+        got = {str(k): v for k, v in comp.param_dict.items()}
+        rep = {'lines': [{'r1': {k: str(v) for k, v in d1.items()}, 'r2': {k: str(v) for k, v in d2.items()}}], 'theorem_or_correspondence': 'Model.C10.compose (C10_compose_resolvers)'}
+        want = {k: e for k, e in out}
+        ok = set(got) == set(want)
+        if ok:
+            for trial in range(2):
+                env = {nm: rng.choice([0.3, -1.7, 2.2, 1.1]) + trial for nm in names}
+                for k in want:
+                    gv = got[k]
+                    gv = complex(gv.subs({sympy.Symbol(s_): v for s_, v in env.items()})) if hasattr(gv, 'subs') else complex(gv)
+                    if abs(gv - lean_eval(want[k], env)) > 1e-8 * max(1, abs(gv)):
+                        ok = False
+        if not ok:
+            ctx.report_witness('resolve:compose', 'resolve_parameters(r1, r2) is not the resolver that applies r1 and then r2', dict(rep, impl_out=[{k: str(v) for k, v in got.items()}], spec_out=[want]))
+            continue
+        # and it acts like resolving twice on an expression
+        e, _ = rand_expr(rng, sympy, names, 2)
+        twice = r2.value_of(r1.value_of(e, recursive=False), recursive=False)
+        once = comp.value_of(e, recursive=False)
+        env = {sympy.Symbol(nm): 0.7 + i for i, nm in enumerate(names)}
+        v1 = complex(twice.subs(env)) if hasattr(twice, 'subs') else complex(twice)
+        v2 = complex(once.subs(env)) if hasattr(once, 'subs') else complex(once)
+        if abs(v1 - v2) > 1e-8 * max(1, abs(v1)):
+            ctx.report_witness('resolve:compose:expr', 'resolving with the composed resolver differs from resolving with r1 and then r2', dict(rep, impl_out=[str(once)], spec_out=[str(twice)]))
+
+
 def check_gate_families(ctx, cirq, sympy, rounds):
     """resolving a parameterised gate of every library family = building the gate from the resolved numbers
     (every constructor argument that accepts a symbol, global shifts and the other fixed arguments kept)"""
@@ -386,6 +443,15 @@ def check_gate_families(ctx, cirq, sympy, rounds):
         'ParallelGate': lambda v, c: cirq.ParallelGate(cirq.XPowGate(exponent=v('a'), global_shift=c['s']), 2),
         'PauliStringPhasorGate': lambda v, c: cirq.PauliStringPhasorGate(cirq.DensePauliString('XZ'), exponent_neg=v('a'), exponent_pos=v('b')),
         'GivensRotation': lambda v, c: cirq.givens(v('a')),
+        # operations: wrappers must keep everything but the resolved parameters
+        'ControlledOperation[0]': lambda v, c: (cirq.X ** v('a')).on(cirq.LineQubit(1)).controlled_by(cirq.LineQubit(0), control_values=[0]),
+        'ControlledOperation[0,1]': lambda v, c: (cirq.Z ** v('a')).on(cirq.LineQubit(2)).controlled_by(cirq.LineQubit(0), cirq.LineQubit(1), control_values=[0, 1]),
+        'ControlledOperation[sop]': lambda v, c: cirq.ControlledOperation([cirq.LineQubit(0), cirq.LineQubit(1)], (cirq.X ** v('a')).on(cirq.LineQubit(2)), cirq.SumOfProducts([[0, 1], [1, 0]])),
+        'ControlledGate[0]': lambda v, c: cirq.ControlledGate(cirq.YPowGate(exponent=v('a'), global_shift=c['s']), control_values=[0]),
+        'TaggedOperation': lambda v, c: (cirq.X ** v('a')).on(cirq.LineQubit(0)).with_tags('t'),
+        'CircuitOperation': lambda v, c: cirq.CircuitOperation(cirq.FrozenCircuit((cirq.X ** v('a')).on(cirq.LineQubit(0)), cirq.CZ(cirq.LineQubit(0), cirq.LineQubit(1)) ** v('b')), repetitions=2),
+        'ParallelOperation': lambda v, c: cirq.ParallelGate(cirq.ZPowGate(exponent=v('a')), 2).on(cirq.LineQubit(0), cirq.LineQubit(1)),
+        'Moment': lambda v, c: cirq.Circuit(cirq.Moment((cirq.X ** v('a')).on(cirq.LineQubit(0)), (cirq.Y ** v('b')).on(cirq.LineQubit(1)))),
         'CPhase': lambda v, c: cirq.cphase(v('a')),
     }
     for name, mk in fams.items():
